@@ -149,7 +149,7 @@ package dsl
 //@   ensures a_single_case_stands_for_itself: len(tcs) == 1 ==> typeof(lastArg("encoding/json.Marshal", 0)) == *TypeCase && lastArg("encoding/json.Marshal", 0).(*TypeCase) == tcs[0]
 //@   ensures several_cases_are_a_list: len(tcs) != 1 ==> typeof(lastArg("encoding/json.Marshal", 0)) != *TypeCase
 //@ func (ArrayDimensions).MarshalJSON
-//@   property C04
+//@   property C04,C15
 //@   invariant 0: forall k in 0..rangeindex+1 :: (dims[k].Name == nil && dims[k].Length == nil)
 //@   ensures rank_only_spelling_has_no_names_or_lengths: typeof(lastArg("encoding/json.Marshal", 0)) == int ==> (forall k in 0..len(dims) :: (dims[k].Name == nil && dims[k].Length == nil))
 //@   ensures rank_only_spelling_gives_the_rank: typeof(lastArg("encoding/json.Marshal", 0)) == int ==> lastArg("encoding/json.Marshal", 0).(int) == len(dims)
